@@ -160,6 +160,11 @@ class Spec(object):
     def loop(self, ordinal, inv, variant=None, terms=None, repl=None, local=None):
         self.loops[(ordinal, repl)] = dict(inv=inv, variant=variant, terms=terms, local=local)
 
+    def body_lemma(self, pre, post):
+        """loop-free function: (pre ==> post after the body) proved on scalarised memory in an array-free harness; in context
+        pre is asserted at entry and post assumed at exit"""
+        self.body_lemmas = getattr(self, 'body_lemmas', []) + [(pre, post)]
+
     def assume_nonzero_divisors_in(self, *fnames):
         self.assumed_nonzero += list(fnames)
 
@@ -921,8 +926,33 @@ class Generator(object):
         for fnc in spec.ghosts.get('entry', []):
             fnc(GhostCtx(self, spec))
         self.emit_reach = True
+        body_lemmas = getattr(spec, 'body_lemmas', [])
+        for jl, (bpre, bpost) in enumerate(body_lemmas):
+            for lab, pf in bpre:
+                self.emit_assert(pf, '%s/%s/body_lemma%d.pre.%s[%s]' % (self.prop, fn.key, jl, lab, self.cfgname), 'lemma')
         self.out('/* ---- body of %s */' % fn.key)
         self.stmts(fn.body, spec)
+        for jl, (bpre, bpost) in enumerate(body_lemmas):
+            # the whole (loop-free) body on scalarised memory
+            flags = []
+
+            def bad(st):
+                if isinstance(st, (Loop, CallContract)):
+                    flags.append(st)
+            ir.walk(fn.body, bad)
+            if flags:
+                # the body is no longer straight-line (e.g. it now calls other functions): the postconditions are left to the
+                # in-context obligations, without the help of the array-free lemma
+                self.out('/* body lemma not applicable: the body contains loops or calls */')
+                continue
+            fake = Loop((fn.key, 'body%d' % jl, ()), '__nobody__', E.const(True), [], fn.body, src='whole body of ' + fn.key)
+            fake.whole_body = True
+            fake.ns = fn.ns
+            lh = local_iteration_harness(self, fake, None, list(bpre), list(bpost), self.prop, self.cfgname)
+            if not any(x.name == lh.name for x in self.side_harnesses):
+                self.side_harnesses.append(lh)
+            for lab, pf in bpost:
+                self.emit_assume(pf, 'body lemma ' + lab)
         for fnc in spec.ghosts.get('exit', []):
             fnc(GhostCtx(self, spec))
         self.section += 1
@@ -1196,18 +1226,21 @@ def linform(e, env):
 
 
 class Scalariser(object):
-    def __init__(self):
+    def __init__(self, read_only=()):
         self.cells = {}       # (arr, linform key) -> (scalar name, ty)
         self.by_arr = {}      # arr -> [LinForm]
         self.int_env = {}
         self.n = 0
+        # arrays the scalarised statements never write: cells with unrelated index forms may coincide, and are then
+        # represented by independent scalars -- a generalisation (the real state is the special case where they are equal)
+        self.read_only = set(read_only)
 
     def cell(self, arr, idx, ty):
         lf = linform(idx, self.int_env)
         k = (arr, lf.key())
         if k not in self.cells:
             for other in self.by_arr.get(arr, []):
-                if other.vars_key() != lf.vars_key():
+                if other.vars_key() != lf.vars_key() and arr not in self.read_only:
                     raise GenError('cannot scalarise: cells %s[...] with unrelated index forms' % arr)
             self.by_arr.setdefault(arr, []).append(lf)
             self.n += 1
@@ -1321,8 +1354,10 @@ def abstract_lemma_harness(gen, name, hyps, concls):
 def local_iteration_harness(gen, lp, L, pre, post, prop, tag):
     """array-free harness of one iteration: assume pre, run the body, assert each post fact"""
     pr = Printer('real')
-    sc = Scalariser()
-    sc.assumed_nonzero = list(getattr(L.S, 'assumed_nonzero', []))
+    _, written = ir.write_set(lp.body)
+    ro = set(gen.globals_a) - set(written) if getattr(lp, 'whole_body', False) else ()
+    sc = Scalariser(read_only=ro)
+    sc.assumed_nonzero = list(getattr(L.S, 'assumed_nonzero', [])) if L is not None else []
     body = []
     pre_txt = [pr.p(sc.ex(E.const(p))) for _, p in pre]
     scalar_stmts(lp.body, sc, body, pr)
